@@ -11,6 +11,8 @@ Definition qlist_s (l : list Q) : string := join "," (map q_s l).
 Definition dict_s (l : list (Z * Q)) : string :=
   join "," (map (fun kv => append (zs (fst kv)) (append "=" (q_s (snd kv)))) l).
 
+(* a case that is rejected before any crossing renders as  R:<Type:detail>,  a crossing that raises as  E:<Type:detail> *)
+
 (* ---------- literal constructors ---------- *)
 Definition sq (q : Q) : option Q := Some q.
 Definition dg (k : Z) (v : Q) : Z * Q := (k, v).
@@ -35,10 +37,10 @@ Definition cross_s (r : roadm) (x : Z * Z * list chan) : string :=
 Definition runA (k : keys3) (dp dd dw : list (Z * Q)) (profs : list profile) (calls : list pcall)
                 (rcar : option (Q * Q)) (rin : list (Z * Q)) (xs : list (Z * Z * list chan)) : string :=
   match roadm_params k with
-  | Err e => append "E:" e
+  | Err e => append "R:" e
   | Ok (a, b, c) =>
       match set_paths (prof_dict profs) calls [] with
-      | Err e => append "E:" e
+      | Err e => append "R:" e
       | Ok ps => join ";" (map (cross_s (mkRoadm a b c dp dd dw rcar rin ps)) xs)
       end
   end.
@@ -49,13 +51,13 @@ Definition runL (eq el : keys3) (dp dd dw : list (Z * Q)) (next : list Z) (profs
                 (calls : list pcall) (rcar : option (Q * Q)) (rin : list (Z * Q))
                 (xs : list (Z * Z * list chan)) : string :=
   match load_policy eq el with
-  | Err e => append "E:" e
+  | Err e => append "R:" e
   | Ok (a, b, c) =>
       match set_targets (mkRoadm a b c dp dd dw rcar rin []) next with
-      | Err e => append "E:" e
+      | Err e => append "R:" e
       | Ok r1 =>
           match set_paths (prof_dict profs) calls [] with
-          | Err e => append "E:" e
+          | Err e => append "R:" e
           | Ok ps =>
               let r := mkRoadm (npow r1) (npsd r1) (npsw r1) (dpow r1) (dpsd r1) (dpsw r1) rcar rin ps in
               join ";" (join "|" [append "D:" (dict_s (dpow r)); dict_s (dpsd r); dict_s (dpsw r);
